@@ -2,8 +2,11 @@ package checks
 
 import (
 	"strconv"
+	"strings"
 
 	metav1 "k8s.io/apimachinery/pkg/apis/meta/v1"
+	"k8s.io/apimachinery/pkg/apis/meta/v1/unstructured"
+	"k8s.io/apimachinery/pkg/types"
 	"k8s.io/utils/ptr"
 	"sigs.k8s.io/controller-runtime/pkg/client"
 
@@ -69,8 +72,68 @@ func (r *Runner) depTemplate(i int) corev1alpha1.ObjectSetTemplate {
 	t.Cluster = DepCluster
 	return corev1alpha1.ObjectSetTemplate{
 		Metadata: metav1.ObjectMeta{Labels: map[string]string{"dep": DepName}},
-		Spec:     r.TemplateSpec(t, nil),
+		Spec:     r.TemplateSpec(t, r.ensureTemplateSlices(i, t)),
 	}
+}
+
+// ensureTemplateSlices stores the objects of the template's phases marked Sliced in ObjectSlices (two per phase, like
+// hand-made sets), the way the package controller does for big phases: the slices exist before the template refers to them
+// and are owned (not controlled) by the deployment once that exists.
+func (r *Runner) ensureTemplateSlices(i int, t SetSpec) map[int][]string {
+	names := map[int][]string{}
+	if len(r.Sc.Tmpls) == 0 {
+		return names
+	}
+	ti := mod(i, len(r.Sc.Tmpls))
+	r.W.ActAs("user", func(c client.Client) {
+		for pi, ph := range t.Phases {
+			if !ph.Sliced || len(ph.Objs) == 0 {
+				continue
+			}
+			cut := (len(ph.Objs) + 1) / 2
+			for si, part := range [][]ObjSpec{ph.Objs[:cut], ph.Objs[cut:]} {
+				if len(part) == 0 {
+					continue
+				}
+				sl := &unstructured.Unstructured{Object: map[string]any{}}
+				sl.SetGroupVersionKind(corev1alpha1.GroupVersion.WithKind(setKind(DepCluster, "ObjectSlice")))
+				sl.SetName(DepName + "-t" + strconv.Itoa(ti) + "-" + ph.Name + "-slice" + strconv.Itoa(si))
+				sl.SetNamespace(depNS())
+				var objs []any
+				for _, o := range part {
+					oso := r.BuildObject(o, DepCluster)
+					m, _ := kubesim.Normalize(&oso)
+					objs = append(objs, m)
+				}
+				sl.Object["objects"] = objs
+				_ = c.Create(r.W.Ctx, sl) // AlreadyExists: the template was used before
+				names[pi] = append(names[pi], sl.GetName())
+				r.Labels["deployment-template-with-sliced-phase"] = true
+			}
+		}
+	})
+	return names
+}
+
+// ownTemplateSlices makes the deployment an owner of every slice created for its templates (so the cluster's garbage
+// collector keeps them while the deployment exists, whatever happens to the revisions that used them).
+func (r *Runner) ownTemplateSlices() {
+	dep := r.W.Store.Peek(depKey())
+	if dep == nil {
+		return
+	}
+	r.W.ActAs("user", func(c client.Client) {
+		for _, k := range r.W.ListKeys(engine.PKOGroup, setKind(DepCluster, "ObjectSlice")) {
+			sl := r.W.Store.Peek(k)
+			if sl == nil || !strings.HasPrefix(k.Name, DepName+"-t") || IsOwnedBy(sl, dep) {
+				continue
+			}
+			u := engine.U(sl)
+			u.SetOwnerReferences(append(u.GetOwnerReferences(), metav1.OwnerReference{
+				APIVersion: "package-operator.run/v1alpha1", Kind: depKind(), Name: DepName, UID: types.UID(engine.UID(dep))}))
+			_ = c.Update(r.W.Ctx, u)
+		}
+	})
 }
 
 func init() {
@@ -85,6 +148,7 @@ func init() {
 			spec.Paused = st.On
 			_ = c.Create(r.W.Ctx, d)
 		})
+		r.ownTemplateSlices()
 		return nil
 	}
 	extraOps["editDeploy"] = func(r *Runner, st Step) error {
@@ -98,6 +162,7 @@ func init() {
 				r.Labels["deploy-edited"] = true
 			}
 		})
+		r.ownTemplateSlices()
 		return nil
 	}
 	extraOps["pauseDeploy"] = func(r *Runner, st Step) error {
